@@ -202,8 +202,16 @@ func execImpl(root store.Cursor, start Path, env *Env, text string) (res xsel.Re
 	}
 	c := cursorAt(root, start)
 	res, err = xsel.Exec(c, g, env.Settings(root)...)
+	if !noRoutes {
+		if m := alternateRoutes(root, start, env, g, res, err); m != "" {
+			return nil, routeMismatch{m}, nil
+		}
+	}
 	return res, err, nil
 }
+
+// noRoutes: the families about purity and concurrency count evaluations and must not be given extra ones
+var noRoutes bool
 
 // compiled expressions are shared by all later executions of the same text
 var exprCache = map[string]*xsel.Grammar{}
